@@ -280,6 +280,36 @@ func runC05(env *lib.Env, rep *lib.Report) {
 			rep.AddFailure(x.Fail)
 		}
 	}
+	// (7) integer literals and LIMIT/OFFSET counts written with a leading zero are decimal (or refused), on a
+	// 12-row table whose values tell 010 = ten from 010 = eight
+	if env.Shard == 0 {
+		var rows [][]any
+		bs := []int64{8, 10, 64, 100, 7, 9, 1, 2, 3, 4, 5, 6}
+		for i := 1; i <= 12; i++ {
+			rows = append(rows, []any{int64(i), bs[i-1], []string{"x", "y"}[i%2], i%3 == 0})
+		}
+		x := lib.RunOnce(func(c *lib.Ctx) {
+			qw := newQWorld(c, []*qTable{{name: "t", cols: c05Cols, rows: rows}})
+			defer qw.w.destroy()
+			for _, op := range []string{"=", "!=", "<", "<=", ">", ">="} {
+				for _, n := range []int64{7, 8, 9, 10, 11, 12, 64, 100} {
+					for _, col := range []string{"a", "b"} {
+						r.check(qw, &qQuery{items: star, from: from, where: &qCond{atoms: []qAtom{{qc("", col), ql(n), op}}}, limit: -1, offset: -1, zeroPad: true, mayReject: true}, "zero-padded", "")
+						r.check(qw, &qQuery{items: star, from: from, where: &qCond{atoms: []qAtom{{ql(n), qc("", col), op}}}, limit: -1, offset: -1, zeroPad: true, mayReject: true}, "zero-padded", "")
+					}
+				}
+			}
+			for _, lo := range [][3]int{{10, -1, 1}, {-1, 10, 1}, {10, 1, 1}, {1, 10, 0}, {8, 1, 1}, {9, 2, 0}, {11, 0, 1}, {12, 10, 1}} {
+				for _, s := range [][]qSort{nil, {{qRef{"", "b"}, "DESC"}}} {
+					r.check(qw, &qQuery{items: star, from: from, orderBy: s, limit: lo[0], offset: lo[1], limitFirst: lo[2] == 1, zeroPad: true, mayReject: true}, "zero-padded", "")
+				}
+			}
+		}, nil)
+		if x.Fail != nil {
+			rep.AddFailure(x.Fail)
+		}
+	}
+	rep.Bounds["zero-padded literals"] = "a/b compared with 07..012, 064, 0100 in every operator and operand order; LIMIT/OFFSET 08..012 (12-row table; must be read as decimal or refused)"
 	rep.Bounds["queries executed (this shard)"] = r.nQuery
 }
 
